@@ -395,7 +395,17 @@ def run_atheris(desc, seed, col):
         cmd = [sys.executable, os.path.join(here, 'c08_fuzz.py'), corpus, '-runs=%d' % desc['runs'], '-seed=%d' % (seed % (2 ** 31) or 1),
                '-max_len=64', '-artifact_prefix=' + crashes + '/', '-print_final_stats=0']
         env['PV_C08_CRASHDIR'] = crashes
-        p = subprocess.run(cmd, env=env, capture_output=True, text=True, timeout=2000)
+        # (the campaign runs in a process of its own, with its own time limit: the watchdog of this shard - re-armed by recorded
+        # cases only - stands down meanwhile)
+        harness.disarm_watchdog()
+        try:
+            p = subprocess.run(cmd, env=env, capture_output=True, text=True, timeout=2000)
+        except subprocess.TimeoutExpired:
+            col.notes.append('atheris campaign (corpus=%s): stopped at its 2000 s limit (inconclusive, not a violation)' % desc['corpus'])
+            col.budget_exhausted = True
+            return
+        finally:
+            harness.arm_watchdog()
         execs = 0
         for line in (p.stderr or '').splitlines():
             if 'Done' in line and 'runs' in line:
